@@ -213,3 +213,20 @@ def cases(seed: int, tier: str, want=("REQ", "RESP"), focus=None):
         for _ in range(n // 8):
             yield "RESP", rstr(r, bytes(range(256)), r.randrange(0, 30))
             yield "RESP", rstr(r, b"HTTP/1.0 2\r\n:a", r.randrange(0, 30))
+
+
+def long_target_cases(seed: int, tier: str):
+    """very long targets (the parser has no length limit of its own; a server configured with a large head limit hands them
+    in): every index the target carries must survive offsets beyond 2^16 (and 2^16 boundaries inside path and query).
+    Run through the real code only (the list-based model is quadratic on inputs of this size)."""
+    r = rng_for(seed, "parse-long")
+    out = []
+    sizes = ([(65500, 80, 10), (10, 65530, 20), (65600, 5, 0), (70000, 70000, 70000)] if tier == "quick"
+             else [(65500 + d, 80, 10) for d in range(0, 60, 7)] + [(10, 65520 + d, 20) for d in range(0, 40, 5)] + [(65600, 5, 0), (70000, 70000, 70000), (131070, 10, 3)])
+    for host_len, path_len, q_len in sizes:
+        host = rstr(r, b"abcdefghij.-0123456789", host_len)
+        path = b"/" + rstr(r, b"abcdefghij/_-", path_len)
+        q = (b"?" + rstr(r, b"abc=&123", q_len)) if q_len else b""
+        for tgt, m_ in ((b"http://" + host + path + q, b"GET"), (path + q, b"GET"), (host + b":443", b"CONNECT")):
+            out.append(m_ + b" " + tgt + b" HTTP/1.1\r\nHost: x\r\n\r\n")
+    return out
